@@ -273,6 +273,23 @@ macro_rules! prim_family {
                 }
             }
         }
+        // arrays [T; 2] (coerced to slices by const_eq!/const_cmp!), also against each other as Option-free values
+        let a5 = <$t as Prim>::a5();
+        for &a0 in &a5 { for &a1 in &a5 { for &b0 in &a5 { for &b1 in &a5 {
+            let (l, r): ([$t; 2], [$t; 2]) = ([a0, a1], [b0, b1]);
+            let args = format!("{} {} {}", tn, show_list(l.iter(), |x| x.z()), show_list(r.iter(), |x| x.z()));
+            let imp = catch(move || fields(&[
+                ("ceq", s1(bc(const_eq!(l, r)))),
+                ("ccmp", s1(oc(const_cmp!(l, r)))),
+                ("rceq", s1(bc(const_eq!(&l, &r)))),
+                ("rccmp", s1(oc(const_cmp!(&&l, &&r)))),
+            ]));
+            let sd = fields(&[
+                ("ceq", s1(bc(l == r))), ("ccmp", s1(oc(l.cmp(&r)))),
+                ("rceq", s1(bc(l == r))), ("rccmp", s1(oc(l.cmp(&r)))),
+            ]);
+            out.line("c16.array", &args, &imp, &sd, seq_tag(&l, &r));
+        }}}}
         // seeded random longer slices sharing a prefix
         let bnd = <$t as Prim>::bounds();
         for _ in 0..(if cfg.thorough { 3000 } else { 300 }) {
@@ -529,6 +546,65 @@ fn sbytes_line(out: &mut Out, l: &[&[u8]], r: &[&[u8]]) {
     out.line("c16.sbytes", &args, &imp, &sd, seq_tag(l, r));
 }
 
+// ---------------------------------------------------------------- a user type (impl_cmp!, try_equal!, IsNotStdKind coercion)
+
+#[derive(Debug, Clone, Copy, PartialEq, Eq, PartialOrd, Ord)]
+pub struct Pt {
+    x: i8,
+    name: &'static str,
+    tag: Option<u8>,
+}
+konst::impl_cmp! {
+    impl Pt;
+
+    pub const fn const_eq(&self, other: &Self) -> bool {
+        const_eq!(self.x, other.x) && const_eq!(self.name, other.name) && const_eq!(self.tag, other.tag)
+    }
+    pub const fn const_cmp(&self, other: &Self) -> Ordering {
+        konst::try_equal!(const_cmp!(self.x, other.x));
+        konst::try_equal!(const_cmp!(self.name, other.name));
+        konst::try_equal!(const_cmp!(self.tag, other.tag))
+    }
+}
+fn show_pt(p: &Pt) -> String {
+    format!("{} {} {}", p.x, hex(p.name.as_bytes()), show_list(p.tag.iter(), |t| t.to_string()))
+}
+fn user_line(out: &mut Out, p: Pt, q: Pt) {
+    let args = format!("{} {}", show_pt(&p), show_pt(&q));
+    let imp = catch(move || {
+        let ls: &[Pt] = &[p, q];
+        let rs: &[Pt] = &[p, p];
+        fields(&[
+            ("ceq", s1(bc(const_eq!(p, q)))),
+            ("ccmp", s1(oc(const_cmp!(p, q)))),
+            ("feq", s1(bc(const_eq_for!(slice; ls, rs)))),
+            ("fcmp", s1(oc(const_cmp_for!(slice; ls, rs)))),
+            ("fkeq", s1(bc(const_eq_for!(slice; ls, rs, |v| v.x)))),
+            ("fkcmp", s1(oc(const_cmp_for!(slice; ls, rs, |v| v.x)))),
+            ("foeq", four!(|a: Option<Pt>, b: Option<Pt>| const_eq_for!(option; a, b), p, q, bc)),
+            ("focmp", four!(|a: Option<Pt>, b: Option<Pt>| const_cmp_for!(option; a, b), p, q, oc)),
+            ("fokcmp", four!(|a: Option<Pt>, b: Option<Pt>| const_cmp_for!(option; a, b, |v| v.name), p, q, oc)),
+        ])
+    });
+    let ls: &[Pt] = &[p, q];
+    let rs: &[Pt] = &[p, p];
+    let lk: Vec<i8> = ls.iter().map(|v| v.x).collect();
+    let rk: Vec<i8> = rs.iter().map(|v| v.x).collect();
+    let sd = fields(&[
+        ("ceq", s1(bc(p == q))),
+        ("ccmp", s1(oc(p.cmp(&q)))),
+        ("feq", s1(bc(ls == rs))),
+        ("fcmp", s1(oc(ls.cmp(rs)))),
+        ("fkeq", s1(bc(lk == rk))),
+        ("fkcmp", s1(oc(lk.cmp(&rk)))),
+        ("foeq", four!(|a: Option<Pt>, b: Option<Pt>| a == b, p, q, bc)),
+        ("focmp", four!(|a: Option<Pt>, b: Option<Pt>| a.cmp(&b), p, q, oc)),
+        ("fokcmp", four!(|a: Option<Pt>, b: Option<Pt>| a.map(|v| v.name).cmp(&b.map(|v| v.name)), p, q, oc)),
+    ]);
+    let tag = if p == q { "eq" } else if p.x != q.x { "first-field" } else if p.name != q.name { "second-field" } else { "third-field" };
+    out.line("c16.user", &args, &imp, &sd, tag);
+}
+
 fn ord_of(i: i8) -> Ordering {
     match i {
         -1 => Ordering::Less,
@@ -652,6 +728,27 @@ pub fn run(cfg: &Cfg, out: &mut Out) {
                 out.line("c16.slice_u8_alias", &args, &imp, &sd, seq_tag(l, r));
             }
         }
+    }
+
+    // ---- a user type with impl_cmp! (field-wise, try_equal! chain)
+    {
+        let names: [&'static str; 3] = ["", "a", "ab"];
+        let mut pts = Vec::new();
+        for x in [-1i8, 0, 1] {
+            for name in names {
+                for tag in [None, Some(0u8), Some(255)] {
+                    pts.push(Pt { x, name, tag });
+                }
+            }
+        }
+        for &p in &pts {
+            for &q in &pts {
+                user_line(out, p, q);
+            }
+        }
+        out.line("c16.laws", &format!("Pt user {}", pts.len()),
+            &laws(&pts, |a, b| const_cmp!(*a, *b), |a, b| const_eq!(*a, *b), show_pt),
+            &laws(&pts, |a, b| a.cmp(b), |a, b| a == b, show_pt), "triples");
     }
 
     // ---- NonZero integers
